@@ -2,7 +2,7 @@
 //!
 //! * `recv` pops the next datagram of the harness-filled queue `rx`, or fails with `rx_empty_kind`
 //!   (default WouldBlock) when the queue is exhausted.
-//! * `send` records the datagram in `tx` (last one) and counts sends.
+//! * `send` records address and length of the datagram (last one) and counts sends.
 //! * every option setter records its argument.
 //! * virtual clock: a `recv` that returns a datagram advances `elapsed_ns` by that datagram's
 //!   `delay_ns` (harness-chosen, must be <= the armed read timeout for a blocking socket); a `recv`
@@ -56,7 +56,7 @@ pub struct Socket {
     pub rx_pos: usize,
     pub rx_empty_kind: io::ErrorKind,
     pub recv_calls: usize,
-    pub tx: [u8; DCAP],
+    pub tx_ptr: usize,
     pub tx_len: usize,
     pub tx_count: usize,
     pub send_fail: bool,
@@ -79,7 +79,7 @@ impl Socket {
             rx_pos: 0,
             rx_empty_kind: io::ErrorKind::WouldBlock,
             recv_calls: 0,
-            tx: [0; DCAP],
+            tx_ptr: 0,
             tx_len: 0,
             tx_count: 0,
             send_fail: false,
@@ -119,10 +119,12 @@ impl Socket {
         if self.send_fail {
             return Err(io::Error::from(io::ErrorKind::PermissionDenied));
         }
+        // The datagram is NOT copied (a copy of symbolic length from a symbolic offset is what CBMC is worst at):
+        // its address and length are recorded.  gufo_snmp always sends `Buffer::data()`, i.e. the LAST `n` octets of a
+        // pooled message buffer, which stay in place after the send (reset only moves the position), so harnesses read
+        // them back from the pooled buffer.  `tx_end` lets them check that the slice really ended at the buffer's end.
         let n = buf.len();
-        if n <= DCAP {
-            self.tx[..n].copy_from_slice(buf);
-        }
+        self.tx_ptr = buf.as_ptr() as usize;
         self.tx_len = n;
         self.tx_count += 1;
         Ok(n)
